@@ -30,6 +30,7 @@ than N are covered by the inductive shape of the loops only in the sense that ea
 neighbours -- this is a bounded exhaustive analysis, not an unbounded proof.  Nothing of Graphite2 is compiled or run.
 """
 import itertools
+import os
 
 from . import dom, ordint as O
 from .facts import AnalysisBroken
@@ -719,6 +720,272 @@ def resolve_exec(run, fx):
     return True
 
 
+def _nbor_case(fx, fn, F, SC, n, parents, flags, fixi, rev, starti):
+    """one interpretation of Pass::resolveCollisions; returns a problem string or None"""
+    PS, PC = 'graphite2::Slot::', 'graphite2::SlotCollision::'
+    srec, crec = fx.record('graphite2::Slot'), fx.record('graphite2::SlotCollision')
+    slots, colls = [], []
+    for k in range(n):
+        r = O.Rec()
+        for f in srec['fields']:
+            r[PS + f['n']] = O.Ptr(None) if f.get('ptr') else 0
+        r['#'] = k
+        slots.append(r)
+        c = O.Rec()
+        for f in crec['fields']:
+            c[PC + f['n']] = O.Ptr(None) if f.get('ptr') else 0
+        for nm in ('_shift', '_offset', '_exclOffset'):
+            c[PC + nm] = O.Rec({'graphite2::Position::x': 0, 'graphite2::Position::y': 0})
+        c[PC + '_limit'] = O.Rec({'graphite2::Rect::bl': O.Rec({'graphite2::Position::x': 0, 'graphite2::Position::y': 0}), 'graphite2::Rect::tr': O.Rec({'graphite2::Position::x': 0, 'graphite2::Position::y': 0})})
+        c[SC] = flags[k]
+        c['#'] = k
+        colls.append(c)
+    for k in range(n):
+        slots[k][F['next']] = O.Ptr(slots[k + 1]) if k + 1 < n else O.Ptr(None)
+        slots[k][F['prev']] = O.Ptr(slots[k - 1]) if k > 0 else O.Ptr(None)
+        slots[k][F['parent']] = O.Ptr(slots[parents[k]]) if parents[k] is not None else O.Ptr(None)
+    for p in range(n):
+        kids = [k for k in range(n) if parents[k] == p]
+        slots[p][F['child']] = O.Ptr(slots[kids[0]]) if kids else O.Ptr(None)
+        for a, b in zip(kids, kids[1:] + [None]):
+            slots[a][F['sibling']] = O.Ptr(slots[b]) if b is not None else O.Ptr(None)
+    merged = []
+
+    def merge(I, f, e, obj, a):
+        nb = I.rv(a[1])
+        merged.append((nb.rec['#'], bool(I.rv(a[4])), bool(I.rv(a[5]))))
+        return True
+    nat = {'graphite2::Segment::collisionInfo': lambda I, f, e, obj, a: O.Ptr(colls[I.rv(a[0]).rec['#']]),
+           'graphite2::ShiftCollider::initSlot': lambda I, f, e, obj, a: True,
+           'graphite2::ShiftCollider::mergeSlot': merge,
+           'graphite2::ShiftCollider::resolve': lambda I, f, e, obj, a: O.Rec({'graphite2::Position::x': 0, 'graphite2::Position::y': 0}),
+           'graphite2::Slot::finalise': lambda I, f, e, obj, a: O.Rec({'graphite2::Position::x': 0, 'graphite2::Position::y': 0}),
+           'graphite2::ShiftCollider::outputJsonDbg': lambda I, f, e, obj, a: None,
+           'fabs': lambda I, f, e, obj, a: abs(I.rv(a[0])), 'std::fabs': lambda I, f, e, obj, a: abs(I.rv(a[0]))}
+    it = O.Interp(fx, natives=nat)
+    it.MAX_STEPS = 6000
+    pas = O.Rec({'graphite2::Pass::m_colThreshold': 10})
+    moved, hascol = [False], [False]
+    r = it.call(fn, pas, [O.Ptr(O.Rec({'#seg': 1})), O.Ptr(slots[fixi]), O.Ptr(slots[starti]), O.LV([O.Rec({'#coll': 1})], 0), rev, 0, O.LV(moved, 0), O.LV(hascol, 0), O.Ptr(None)])
+    # ---- what the property asks, derived from the structures and not from the function's own tests
+    def root(k):
+        seen = 0
+        while parents[k] is not None and seen < 8:
+            k = parents[k]
+            seen += 1
+        return k
+    IGN, KERN, FIXF, ISCOL, SPACE = 2, 16, 1, 32, 128
+    close = 4 if rev else 8
+    walk, k = [], starti
+    while k is not None and 0 <= k < n:
+        walk.append(k)
+        if k != starti and (flags[k] & close):
+            break
+        k = k - 1 if rev else k + 1
+    rf = root(fixi)
+    got = {m[0] for m in merged}
+    desc = '%d slots, attached to %s, collision flags %s, fixing #%d %s from #%d' % (n, list(parents), list(flags), fixi, 'backwards' if rev else 'forwards', starti)
+    if fixi in got:
+        return '%s: the glyph being fixed is merged into its own collider as a neighbour' % desc
+    for k in walk:
+        if k == fixi or (flags[k] & (IGN | SPACE)):
+            continue
+        own = root(k) == rf
+        chain, j = [k], k
+        while parents[j] is not None and len(chain) < 8:
+            j = parents[j]
+            chain.append(j)
+        kernable = any(flags[j] & KERN for j in chain)
+        if not own and kernable:
+            continue                # another kernable cluster: left to the kerning phase
+        if rev and (flags[k] & FIXF) and not ((flags[k] & KERN) and (not own or k == rf)) and not (flags[k] & ISCOL):
+            continue                # going backwards only what does not move itself (or is known to collide) is merged
+        if k not in got:
+            why = 'belongs to the target\'s own attachment cluster (root #%d)' % rf if own else 'is a non-ignored neighbour outside any kernable cluster'
+            return '%s: slot #%d lies inside the collision range %s and %s, but is never handed to mergeSlot (merged: %s): the target can be moved onto it and is still reported resolved' % (desc, k, walk, why, sorted(got))
+    return None
+
+
+def _nbor_worker(t):
+    fx, fn, F, SC = _JOBS['nbor']
+    out = []
+    cases = 0
+    for (n, parents, flags, fixi, rev, starti) in t:
+        cases += 1
+        try:
+            p = _nbor_case(fx, fn, F, SC, n, parents, flags, fixi, rev, starti)
+        except O.Violation as v:
+            p = '%s (%s)' % (v.what, v.loc)
+        except AnalysisBroken as ex:
+            return cases, None, str(ex)
+        if p:
+            return cases, p, None
+    return cases, None, None
+
+
+def nborscan_exec(run, fx, deep=False):
+    """RESOLVED, "any non-ignored neighbour within reach": Pass::resolveCollisions (with inKernCluster, Slot::isChildOf, attachedTo,
+    SlotCollision::ignore interpreted from their own CFGs; initSlot / mergeSlot / resolve of the collider are natives that record) is
+    interpreted on every chain of 3 (thorough: 4) slots x attachment forest x collision flags drawn from {none, FIX|KERN, START, END,
+    IGNORE, START|END} x glyph being fixed x direction.  Every slot of the collision range -- from `start` to the first slot beyond it
+    that carries the closing flag -- that is not ignored and is either part of the target's own attachment TREE (root and all its
+    descendants) or outside every kernable cluster must have been handed to mergeSlot; the target itself never is.  One direction:
+    merging more than necessary is not reported."""
+    import itertools
+    import multiprocessing as mp
+    from .util import setter_field
+    fn = fx.one('graphite2::Pass::resolveCollisions')
+    PS = 'graphite2::Slot::'
+    F = {'next': setter_field(fx, PS + 'next', PS + 'm_next'), 'prev': setter_field(fx, PS + 'prev', PS + 'm_prev'),
+         'parent': setter_field(fx, PS + 'attachTo', PS + 'm_parent'), 'child': setter_field(fx, PS + 'firstChild', PS + 'm_child'), 'sibling': setter_field(fx, PS + 'nextSibling', PS + 'm_sibling')}
+    SC = setter_field(fx, 'graphite2::SlotCollision::setFlags', 'graphite2::SlotCollision::_flags')
+    inst = 'every non-ignored neighbour of the collision range is merged (interpreted)'
+    FL = (0, 1 | 16, 4, 8, 2, 4 | 8)
+    tasks = []
+    for n in ((3, 4) if deep else (3,)):
+        forests = []
+        for parents in itertools.product([None] + list(range(n)), repeat=n):
+            ok = True
+            for k in range(n):
+                j, seen = k, 0
+                while parents[j] is not None and seen <= n:
+                    j = parents[j]
+                    seen += 1
+                if seen > n or parents[k] == k:
+                    ok = False
+            if ok:
+                forests.append(parents)
+        for parents in forests:
+            for flags in itertools.product(FL, repeat=n):
+                if sum(1 for f in flags if f) > (2 if n == 3 and not deep else 3 if n == 3 else 2):
+                    continue
+                for fixi in range(n):
+                    if flags[fixi] & 2:
+                        continue
+                    for rev in (False, True):
+                        tasks.append((n, parents, flags, fixi, rev, n - 1 if rev else 0))
+    _JOBS['nbor'] = (fx, fn, F, SC)
+    nproc = max(1, min(16, os.cpu_count() or 1))
+    chunks = [tasks[i::nproc * 4] for i in range(nproc * 4)]
+    if os.environ.get('VERIF_SERIAL') or nproc == 1:
+        res = [_nbor_worker(c) for c in chunks]
+    else:
+        with mp.get_context('fork').Pool(nproc) as pool:
+            res = pool.map(_nbor_worker, chunks, chunksize=1)
+    for c, p, b in res:
+        if b:
+            raise AnalysisBroken(b)
+    probs = sorted((p for c, p, b in res if p), key=len)
+    if probs:
+        run.violated('RESOLVED', inst, fn.where(), probs[0])
+        return
+    run.held('RESOLVED', inst, fn.where(), '%d scenarios' % len(tasks))
+
+
+class _Entered(Exception):
+    pass
+
+
+def reach_exec(run, fx):
+    """RESOLVED, "any non-ignored neighbour within reach of its limit rectangle", by symbolic execution (ordint.Poly): the prefix of
+    ShiftCollider::mergeSlot is interpreted with the neighbour's position, its bounding box, the margin and the limit rectangle as
+    SYMBOLS, every comparison explored both ways, until the function either gives the neighbour up (returns without consulting the
+    target's boxes) or goes on to the per-axis work (marker: the neighbour's slant box, the target's glyph id or the sequence weights are
+    asked for).  Specification, not copied from the code's boolean structure: a neighbour is within reach when its box, grown by the
+    margin, meets the x-span of the limit rectangle OR its y-span (the test is made on the neighbour's position relative to the target's
+    origin; the target's own extent is much larger than the limit box, so meeting one span is all that can be asked), and a neighbour
+    that forces a sequence order is always within reach.  One direction only: whoever is within reach must go on to the per-axis work;
+    looking at more neighbours than necessary is harmless and not reported."""
+    fn = fx.one('graphite2::ShiftCollider::mergeSlot')
+    PC, PP, PR = 'graphite2::ShiftCollider::', 'graphite2::Position::', 'graphite2::Rect::'
+    rec = fx.record('graphite2::ShiftCollider')
+    sym = O.Poly.sym
+    inst = 'a neighbour whose grown box meets a span of the limit rectangle is merged (symbolic)'
+    paths = skipped = entered = 0
+    for forced in (False, True):
+        ch = O.Chooser()
+        while True:
+            ch.start()
+            sc = O.Rec()
+            for f in rec['fields']:
+                sc[PC + f['n']] = O.Ptr(None) if f.get('ptr') else 0
+            sc[PC + '_limit'] = O.Rec({PR + 'bl': O.Rec({PP + 'x': sym('lblx'), PP + 'y': sym('lbly')}), PR + 'tr': O.Rec({PP + 'x': sym('ltrx'), PP + 'y': sym('ltry')})})
+            sc[PC + '_origin'] = O.Rec({PP + 'x': sym('tox'), PP + 'y': sym('toy')})
+            sc[PC + '_currOffset'] = O.Rec({PP + 'x': sym('ox'), PP + 'y': sym('oy')})
+            sc[PC + '_currShift'] = O.Rec({PP + 'x': sym('csx'), PP + 'y': sym('csy')})
+            sc[PC + '_margin'] = sym('margin')
+            sc[PC + '_target'] = O.Ptr(O.Rec({'#target': 1}))
+            sc[PC + '_seqClass'] = 1 if forced else 0
+            sc[PC + '_seqProxClass'] = 0
+            sc[PC + '_seqOrder'] = 5
+
+            def mark(I, f, e, obj, a):
+                raise _Entered()
+
+            def gid(I, f, e, obj, a):
+                if isinstance(obj, O.Rec) and obj.get('#target'):
+                    raise _Entered()
+                return 5
+            nat = {'graphite2::Segment::getFace': lambda I, f, e, obj, a: O.Ptr(O.Rec({'#face': 1})),
+                   'graphite2::Face::glyphs': lambda I, f, e, obj, a: O.Rec({'#gc': 1}),
+                   'graphite2::GlyphCache::check': lambda I, f, e, obj, a: True,
+                   'graphite2::GlyphCache::getBoundingBBox': lambda I, f, e, obj, a: O.Rec({'graphite2::BBox::xi': sym('bxi'), 'graphite2::BBox::xa': sym('bxa'), 'graphite2::BBox::yi': sym('byi'), 'graphite2::BBox::ya': sym('bya')}),
+                   'graphite2::GlyphCache::getBoundingSlantBox': mark,
+                   'graphite2::GlyphCache::getSubBoundingBBox': mark, 'graphite2::GlyphCache::getSubBoundingSlantBox': mark, 'graphite2::GlyphCache::numSubBounds': mark,
+                   'graphite2::Slot::gid': gid,
+                   'graphite2::Slot::origin': lambda I, f, e, obj, a: O.Rec({PP + 'x': sym('nox'), PP + 'y': sym('noy')}),
+                   'graphite2::SlotCollision::seqClass': lambda I, f, e, obj, a: 1, 'graphite2::SlotCollision::seqProxClass': lambda I, f, e, obj, a: 0,
+                   'graphite2::SlotCollision::exclGlyph': lambda I, f, e, obj, a: 0,
+                   'graphite2::SlotCollision::seqAboveWt': mark, 'graphite2::SlotCollision::seqBelowWt': mark, 'graphite2::SlotCollision::seqValignWt': mark,
+                   'graphite2::SlotCollision::seqAboveXoff': mark, 'graphite2::SlotCollision::seqValignHt': mark,
+                   'graphite2::Zones::exclude': mark, 'graphite2::Zones::exclude_with_margins': mark, 'graphite2::Zones::weighted': mark}
+            it = O.Interp(fx, chooser=ch, natives=nat)
+            it.MAX_STEPS = 20000
+            it.poly_sign = {}
+            cs = O.Rec({PP + 'x': sym('shx'), PP + 'y': sym('shy')})
+            hascol = [False]
+            went = None
+            try:
+                it.call(fn, sc, [O.Ptr(O.Rec({'#seg': 1})), O.Ptr(O.Rec({'#slot': 1})), O.Ptr(O.Rec({'#coll': 1})), O.LV([cs], 0), False, forced, O.LV(hascol, 0), False, O.Ptr(None)])
+                went = False
+            except _Entered:
+                went = True
+            except O.Violation as v:
+                run.violated('RESOLVED', inst, fn.where(), '%s (%s)' % (v.what, v.loc))
+                return
+            paths += 1
+            entered += went
+            skipped += (not went)
+            if not went:
+                # the specification, asked of the same path (memoised signs; an atom the path never decided is explored both ways)
+                nx = sym('nox') - sym('tox') + sym('shx')
+                ny = sym('noy') - sym('toy') + sym('shy')
+                q = {'ln': 0}
+                reach = forced or (it.compare('>=', nx + sym('bxa') + sym('margin'), sym('lblx'), fn, q) and it.compare('<=', nx + sym('bxi') - sym('margin'), sym('ltrx'), fn, q)) \
+                    or (it.compare('>=', ny + sym('bya') + sym('margin'), sym('lbly'), fn, q) and it.compare('<=', ny + sym('byi') - sym('margin'), sym('ltry'), fn, q))
+                if reach:
+                    def show(k):
+                        try:
+                            return ' '.join(('+ ' if c > 0 else '- ') + ('' if abs(c) == 1 else '%s*' % abs(c)) + '*'.join(vs or ('1',)) for vs, c in k)
+                        except Exception:
+                            return str(k)
+                    dec = '; '.join('%s %s 0' % (show(k), '>' if v > 0 else '<' if v < 0 else '=') for k, v in list(it.poly_sign.items())[:8]) if isinstance(it.poly_sign, dict) else ''
+                    run.violated('RESOLVED', inst, fn.where(), 'mergeSlot gives up a neighbour%s whose bounding box, grown by the margin, meets %s of the limit rectangle (decisions on this path: %s): the '
+                                 'neighbour is never excluded from the target\'s intervals, so the target can be moved onto it and is still reported resolved' %
+                                 (' that forces a sequence order' if forced else '', 'a span', dec[:400]))
+                    return
+            if not ch.advance():
+                break
+            if paths > 400:
+                raise AnalysisBroken('more than 400 paths through the prefix of mergeSlot')
+    if not entered:
+        raise AnalysisBroken('the per-axis work of mergeSlot was never reached (markers: the neighbour\'s slant box, the target\'s glyph id, the sequence weights)')
+    if not skipped:
+        run.observe('RESOLVED: mergeSlot has no out-of-reach short circuit any more (every neighbour goes on to the per-axis work); nothing to decide')
+        return
+    run.held('RESOLVED', inst, fn.where(), '%d paths through the prefix (%d merged, %d given up); neighbour position, box, margin and limit symbolic' % (paths, entered, skipped))
+
+
 def initslot_exec(run, fx):
     """LIMITARGS by symbolic execution (ordint.Poly): ShiftCollider::initSlot is interpreted with the limit rectangle, the current shift
     and the current offset as SYMBOLS (comparisons of symbolic quantities explored both ways); Zones::initialise is a native that records
@@ -1195,7 +1462,7 @@ def run(run):
     N = 4 if run.tier == 'thorough' and not run.cfg_tag else 3
     for name, f in (('ZONESET', lambda: zoneset(run, fx, N)), ('ZONESET', lambda: initialise_exec(run, fx)), ('ZONEWRITERS', lambda: zonewriters(run, fx)),
                     ('OFFERED', lambda: offered(run, fx, N)), ('RESOLVED', lambda: resolved(run, fx)), ('RESOLVED', lambda: verdictshift(run, fx)),
-                    ('LIMITARGS', lambda: limitargs(run, fx)), ('LIMITARGS', lambda: kernclamp(run, fx)), ('LIMITARGS', lambda: initfresh(run, fx)), ('RESOLVED', lambda: rangestart(run, fx)), ('RESOLVED', lambda: resolve_exec(run, fx)), ('RESOLVED', lambda: axisbase(run, fx, optional=True)), ('RESOLVED', lambda: axisbase(run, fx, 'graphite2::ShiftCollider::mergeSlot', 'torg', 'mergeSlot places the limit window of axis i at that axis\' own form of the offset')), ('LIMITARGS', lambda: initslot_exec(run, fx)), ('LIMITARGS', lambda: limitdiag(run, fx)), ('LIMITARGS', lambda: targetown(run, fx))):
+                    ('LIMITARGS', lambda: limitargs(run, fx)), ('LIMITARGS', lambda: kernclamp(run, fx)), ('LIMITARGS', lambda: initfresh(run, fx)), ('RESOLVED', lambda: rangestart(run, fx)), ('RESOLVED', lambda: resolve_exec(run, fx)), ('RESOLVED', lambda: reach_exec(run, fx)), ('RESOLVED', lambda: nborscan_exec(run, fx, run.tier == 'thorough' and not run.cfg_tag)), ('RESOLVED', lambda: axisbase(run, fx, optional=True)), ('RESOLVED', lambda: axisbase(run, fx, 'graphite2::ShiftCollider::mergeSlot', 'torg', 'mergeSlot places the limit window of axis i at that axis\' own form of the offset')), ('LIMITARGS', lambda: initslot_exec(run, fx)), ('LIMITARGS', lambda: limitdiag(run, fx)), ('LIMITARGS', lambda: targetown(run, fx))):
         try:
             f()
         except AnalysisBroken as ex:
